@@ -63,7 +63,9 @@ Inductive op :=
 | OSetRebuilding (b : bool)
 | OReload
 | ORevert                     (* Revert to the latest snapshot (bogus name when there is none) *)
-| OSetCheckpoint.
+| OSetCheckpoint
+| OCloseFail.                 (* Server.Close whose final metadata write fails: the replica's files are closed and
+                                 its mode is CLOSED, but the Server keeps the instance and reports the error *)
 
 Definition set_r (s : st) (x : option rep) : st :=
   mkst (present s) x (dcount s) (ddirty s) (drebuild s) (applied s) (snaps s).
@@ -175,6 +177,11 @@ Definition step (s : st) (o : op) : st * res :=
   | OSetCheckpoint =>
       with_rep s (fun x =>
         (mkst (present s) (r s) (dcount s) (idirty x) (irebuild x) (applied s) (snaps s), ROk))
+  | OCloseFail =>
+      match r s with
+      | None => (s, ROk)
+      | Some x => (set_r s (Some (mkrep CLOSED (cache x) (idirty x) (irebuild x))), RErr)
+      end
   end.
 
 (** ** REST layer: action table of replica/rest/model.go and the checkAction gate *)
